@@ -12,6 +12,7 @@ Line-protocol driver for C18.  File lines inside one protocol line are separated
   MD⇥line⇥…                                                           Metadata.deserialize
   SS⇥line⇥…                                                           SDFile.deserialize + SDRecord.deserialize
   SE⇥line⇥…⇥#OPS⇥R⇥old⇥new⇥D⇥name⇥H⇥name⇥field⇥value…   parsed SDFile, edit history, serialize()
+  MF⇥l0⇥l1⇥l2⇥#⇥<ver dflt atoms bonds>⇥…                         MOLFile: header lines, then set_structure calls (errors kept), final lines
   SF⇥line⇥…                                                           SDFile.deserialize, every record: header, get_structure(), metadata
   HS⇥name⇥initials⇥program⇥time⇥dim⇥scaling⇥energy⇥registry⇥comments   Header.serialize
   HD⇥l0⇥l1⇥l2                                                         Header.deserialize
@@ -158,15 +159,53 @@ def setHeaderField (field : String) (v : Line) (h : Header) : Option Header :=
   | "scaling_factors" => some { h with scaling := v }
   | _ => none
 
-/-- `R old new`, `D name`, `H name field value` (one protocol field each) -/
-partial def parseEdits : List String → Option (List EditOp)
+inductive Cmd where
+  | edit (op : EditOp)
+  /-- `SDFile({new: file[old], …})`: a new file built by the constructor from records of the current one -/
+  | rebuild (pairs : List (Line × Line))
+
+/-- `R old new`, `D name`, `H name field value`, `N n new old new old …` (one protocol field each) -/
+partial def parseEdits : List String → Option (List Cmd)
   | [] => some []
-  | "R" :: o :: n :: rest => (parseEdits rest).map fun ops => .rename o.toList n.toList :: ops
-  | "D" :: k :: rest => (parseEdits rest).map fun ops => .del k.toList :: ops
+  | "R" :: o :: n :: rest => (parseEdits rest).map fun ops => .edit (.rename o.toList n.toList) :: ops
+  | "D" :: k :: rest => (parseEdits rest).map fun ops => .edit (.del k.toList) :: ops
   | "H" :: k :: fld :: v :: rest =>
     if (setHeaderField fld v.toList ⟨[], [], [], none, [], [], [], [], []⟩).isNone then none else
-    (parseEdits rest).map fun ops => .editHeader k.toList (fun h => (setHeaderField fld v.toList h).getD h) :: ops
+    (parseEdits rest).map fun ops => .edit (.editHeader k.toList (fun h => (setHeaderField fld v.toList h).getD h)) :: ops
+  | "N" :: n :: rest =>
+    match n.toNat? with
+    | none => none
+    | some n =>
+      let fs := rest.take (2 * n)
+      if fs.length != 2 * n then none else
+      let rec pairs : List String → List (Line × Line)
+        | a :: b :: r => (a.toList, b.toList) :: pairs r
+        | _ => []
+      (parseEdits (rest.drop (2 * n))).map fun ops => .rebuild (pairs fs) :: ops
   | _ => none
+
+/-- run the commands; the first failing one ends the history with its error -/
+def runCmds : LFile → List Cmd → Except Err LFile
+  | f, [] => .ok f
+  | f, .edit op :: rest =>
+    match lazyStep f op with
+    | (f', .unit) => runCmds f' rest
+    | (_, .err e) => .error e
+  | f, .rebuild pairs :: rest =>
+    -- `file[old]` for every item first (KeyError), then the constructor adopts them one by one
+    let rec fetch : LFile → List (Line × Line) → Except Err (List (Line × LRec))
+      | _, [] => .ok []
+      | f, (new, old) :: ps =>
+        match getRec f old with
+        | none => .error .keyError
+        | some (f', r) => (fetch f' ps).map fun xs => (new, r) :: xs
+    match fetch f pairs with
+    | .error e => .error e
+    | .ok items =>
+      let g := sdfileOfDict items
+      match g.2.find? (· != .unit) with
+      | some (.err e) => .error e
+      | _ => runCmds g.1 rest
 
 def step (_ : Unit) (line : String) : Unit × String :=
   let fields := line.splitOn "\t"
@@ -204,15 +243,29 @@ def step (_ : Unit) (line : String) : Unit × String :=
     | "SE" :: rest =>
       let ls := rest.takeWhile (· != "#OPS")
       (match parseEdits ((rest.dropWhile (· != "#OPS")).drop 1), splitRecords (ls.map String.toList) with
-       | some ops, .ok recs =>
-         let r := lazyRun (lazyOfRecords recs) ops
-         (match r.2.find? (· != .unit) with
-          | some (.err e) => showErr e
-          | _ => match LFile.lines r.1 with
+       | some cmds, .ok recs =>
+         (match runCmds (lazyOfRecords recs) cmds with
+          | .error e => showErr e
+          | .ok f => match LFile.lines f with
             | .ok out => "ok " ++ tabJoin (out.map str)
             | .error e => showErr e)
        | none, _ => "bad-op"
        | _, .error e => showErr e)
+    | "MF" :: l0 :: l1 :: l2 :: "#" :: specs =>
+      let parsed := specs.mapM fun sp =>
+        match words sp with
+        | [v, d, as, bs] =>
+          (match d.toNat?, parseList parseAtom as, parseList parseBond bs with
+           | some d, some as, some bs => some ((⟨as, bs⟩ : Mol), d, parseVersion v)
+           | _, _, _ => none)
+        | _ => none
+      (match parsed with
+       | none => "bad-op"
+       | some calls =>
+         let r := calls.foldl (fun (st : List Line × List String) c =>
+           let x := molSetStructure st.1 c.1 c.2.1 c.2.2
+           (x.1, st.2 ++ [match x.2 with | none => "-" | some e => e.toString])) ([l0.toList, l1.toList, l2.toList], [])
+         "ok " ++ joinWith ";" r.2 ++ "\t" ++ tabJoin (r.1.map str))
     | "SF" :: ls =>
       (match sdfDeserialize (ls.map String.toList) with
        | .ok recs =>
